@@ -426,6 +426,27 @@ func (c *Conn) WriteRaw(t http2.FrameType, flags http2.Flags, id uint32, payload
 	return c.note(c.fr.WriteRawFrame(t, flags, id, payload))
 }
 
+// RawFrame is one frame given octet by octet.
+type RawFrame struct {
+	Type    http2.FrameType
+	Flags   http2.Flags
+	ID      uint32
+	Payload []byte
+}
+
+// WriteRawGroup writes the frames back to back: nothing the reader goroutine writes on its own
+// (SETTINGS acknowledgement) can get between them, e.g. between HEADERS and its CONTINUATION.
+func (c *Conn) WriteRawGroup(fs []RawFrame) error {
+	c.wmu.Lock()
+	defer c.wmu.Unlock()
+	for _, f := range fs {
+		if err := c.note(c.fr.WriteRawFrame(f.Type, f.Flags, f.ID, f.Payload)); err != nil {
+			return err
+		}
+	}
+	return nil
+}
+
 // HeadersOpt controls how a header block is put on the wire.
 type HeadersOpt struct {
 	EndStream  bool
